@@ -1199,7 +1199,7 @@ func TestHistory(t *testing.T) {
 	if evid.ReplayPath() != "" {
 		t.Skip()
 	}
-	evid.Check(t, "history", evid.Scale(8000, 480000), runHistoryProp)
+	evid.Check(t, "history", evid.Scale(6000, 400000), runHistoryProp)
 }
 
 func TestReplay(t *testing.T) {
